@@ -3,6 +3,7 @@ package c01
 import (
 	"fmt"
 	"os"
+	"sort"
 	"strings"
 	"testing"
 
@@ -122,12 +123,21 @@ func TestRuleCatalogue(t *testing.T) {
 			t.Fatalf("VERIF-INFRA: entry %s built a block labelled %v (%s) for side invalid=%v\ncandidate node%d on node%d; tree: %s", ent.name, cand.Self, cand.Rule, invalid, cand.Idx, cand.Parent.Idx, tr.Describe())
 		}
 		// descendants on the candidate and competitors on the best other leaf
+		firstDesc := len(tr.Nodes)
 		if !c.leafOnly {
 			last := cand
 			for i := 0; i < rapid.IntRange(0, 3).Draw(t, "descendants"); i++ {
 				last = tr.Extend(last, ce.BlockOpt{Hard: rapid.Bool().Draw(t, "hardDesc")})
 			}
+			// a second branch below the candidate (two reorganisation attempts through the same block)
+			if rapid.IntRange(0, 3).Draw(t, "secondBranch") == 0 {
+				last = cand
+				for i := 0; i < rapid.IntRange(1, 3).Draw(t, "descendants2"); i++ {
+					last = tr.Extend(last, ce.BlockOpt{Hard: rapid.Bool().Draw(t, "hardDesc2")})
+				}
+			}
 		}
+		endDesc := len(tr.Nodes)
 		for i := 0; i < rapid.IntRange(0, 2).Draw(t, "competitors"); i++ {
 			var best *ce.Node
 			for _, n := range tr.Nodes {
@@ -138,8 +148,22 @@ func TestRuleCatalogue(t *testing.T) {
 			tr.Extend(best, ce.BlockOpt{})
 		}
 
+		// valid siblings of the candidate, delivered last: whatever happened to the candidate and to the
+		// blocks below it, blocks that extend its (valid) parent are judged on their own ancestry
+		if rapid.IntRange(0, 2).Draw(t, "siblings") == 0 {
+			sib := cand.Parent
+			for i := 0; i < rapid.IntRange(1, 4).Draw(t, "siblingBranch"); i++ {
+				sib = tr.Extend(sib, ce.BlockOpt{})
+			}
+		}
+
 		// delivery order: tree order, the candidate optionally before its parent (orphan)
 		order := append([]*ce.Node(nil), tr.Nodes[1:]...)
+		if rapid.Bool().Draw(t, "descendantsByHeight") && endDesc > firstDesc {
+			// the blocks below the candidate level by level instead of branch by branch
+			d := order[firstDesc-1 : endDesc-1]
+			sort.SliceStable(d, func(i, j int) bool { return d[i].Height < d[j].Height })
+		}
 		asOrphan := rapid.IntRange(0, 4).Draw(t, "asOrphan") == 0 && cand.Parent.Parent != nil
 		if asOrphan {
 			// move the candidate right before its parent
